@@ -161,14 +161,26 @@ func (c *Ctx) role0(name string) *ssa.Function {
 			}
 		}
 	case "renderImports":
+		// the File method with a writer parameter, called (possibly behind a helper that assembles the
+		// source) by File.Render, that reads the import table
+		readsImports := func(f *ssa.Function) bool {
+			imp := "jen.File." + c.ff("imports")
+			for _, b := range f.Blocks {
+				for _, in := range b.Instrs {
+					if fa, ok := in.(*ssa.FieldAddr); ok && fieldOf(fa) == imp {
+						return true
+					}
+				}
+			}
+			return false
+		}
 		for _, cal := range c.staticCallees(c.method("File", "Render")) {
-			if isFileMethod(c, cal) && c.writerParam(cal) != nil && cal.Signature.Params().Len() == 1 {
+			if isFileMethod(c, cal) && c.writerParam(cal) != nil && cal.Signature.Params().Len() == 1 && readsImports(cal) {
 				return cal
 			}
 		}
-		// behind a helper that assembles the source
 		for _, cal := range c.calleesWithin(c.method("File", "Render"), 2) {
-			if isFileMethod(c, cal) && c.writerParam(cal) != nil && cal.Signature.Params().Len() == 1 && cal.Signature.Results().Len() <= 1 {
+			if isFileMethod(c, cal) && c.writerParam(cal) != nil && cal.Signature.Params().Len() == 1 && cal.Signature.Results().Len() <= 1 && readsImports(cal) {
 				return cal
 			}
 		}
@@ -361,7 +373,23 @@ func (c *Ctx) ff0(role string) string {
 				}
 				return ""
 			}
-			return find(f, 0)
+			if r := find(f, 0); r != "" {
+				return r
+			}
+			// the field handed by address to a helper that appends to it (f.headers.add(text))
+			for _, b := range f.Blocks {
+				for _, in := range b.Instrs {
+					if ci, ok := in.(ssa.CallInstruction); ok {
+						for _, a := range ci.Common().Args {
+							if fa, ok := a.(*ssa.FieldAddr); ok {
+								if fl := fieldOf(fa); strings.HasPrefix(fl, "jen.File.") {
+									return strings.TrimPrefix(fl, "jen.File.")
+								}
+							}
+						}
+					}
+				}
+			}
 		}
 	case "defname", "defalias":
 		for i := 0; i < ft.NumFields(); i++ {
